@@ -251,11 +251,7 @@ func stressOne(c *vf.Ctx, seed int64, batch, iter int, race bool) {
 	viol := func(fp, what string) { c.Violation(fp, what, rep) }
 	it := &stressIter{}
 	d := daemon.New()
-	k := 1 + rng.Intn(4)
-	pool := make([]int, k)
-	for i := range pool {
-		pool[i] = orderBase[rng.Intn(len(orderBase))]
-	}
+	pool := genPool(rng, 1+rng.Intn(4))
 	newW := func(name, kind string) *swk {
 		w := &swk{it: it, name: name, kind: kind, order: pool[rng.Intn(len(pool))], jit: rng.Intn(6), early: make(chan struct{})}
 		if rng.Intn(4) == 0 {
